@@ -361,6 +361,11 @@ func Parse(block []rune, pos int) (pt ParsedTokens, syntaxHighlighted string) {
 					return
 				}
 				pt.Loc = i
+				if readFunc {
+					// the command name ends at this flow token without a space after it
+					pt.Unsafe = isCmdUnsafe(pt.FuncName) || pt.Unsafe
+					readFunc = false
+				}
 				pt.LastFlowToken = i - 1
 				pt.ExpectFunc = true
 				pt.SquareBracket = false
@@ -382,6 +387,11 @@ func Parse(block []rune, pos int) (pt ParsedTokens, syntaxHighlighted string) {
 				}
 				i++
 				pt.Loc = i
+				if readFunc {
+					// the command name ends at this flow token without a space after it
+					pt.Unsafe = isCmdUnsafe(pt.FuncName) || pt.Unsafe
+					readFunc = false
+				}
 				pt.LastFlowToken = i - 1
 				pt.Unsafe = true
 				pt.ExpectFunc = false
@@ -420,6 +430,11 @@ func Parse(block []rune, pos int) (pt ParsedTokens, syntaxHighlighted string) {
 			default:
 				if pos != 0 && pt.Loc >= pos {
 					return
+				}
+				if readFunc {
+					// the command name ends at this flow token without a space after it
+					pt.Unsafe = isCmdUnsafe(pt.FuncName) || pt.Unsafe
+					readFunc = false
 				}
 				pt.LastFlowToken = i
 				pt.ExpectFunc = true
@@ -465,6 +480,11 @@ func Parse(block []rune, pos int) (pt ParsedTokens, syntaxHighlighted string) {
 				if pos != 0 && pt.Loc >= pos {
 					return
 				}
+				if readFunc {
+					// the command name ends at this flow token without a space after it
+					pt.Unsafe = isCmdUnsafe(pt.FuncName) || pt.Unsafe
+					readFunc = false
+				}
 				pt.LastFlowToken = i
 				pt.ExpectFunc = true
 				pt.SquareBracket = false
@@ -492,6 +512,11 @@ func Parse(block []rune, pos int) (pt ParsedTokens, syntaxHighlighted string) {
 				if pos != 0 && pt.Loc >= pos {
 					return
 				}
+				if readFunc {
+					// the command name ends at this flow token without a space after it
+					pt.Unsafe = isCmdUnsafe(pt.FuncName) || pt.Unsafe
+					readFunc = false
+				}
 				pt.LastFlowToken = i
 				pt.ExpectFunc = true
 				pt.SquareBracket = false
@@ -514,6 +539,11 @@ func Parse(block []rune, pos int) (pt ParsedTokens, syntaxHighlighted string) {
 			default:
 				if pos != 0 && pt.Loc >= pos {
 					return
+				}
+				if readFunc {
+					// the command name ends at this flow token without a space after it
+					pt.Unsafe = isCmdUnsafe(pt.FuncName) || pt.Unsafe
+					readFunc = false
 				}
 				pt.LastFlowToken = i
 				pt.Unsafe = true
@@ -539,6 +569,11 @@ func Parse(block []rune, pos int) (pt ParsedTokens, syntaxHighlighted string) {
 				if pos != 0 && pt.Loc >= pos {
 					return
 				}
+				if readFunc {
+					// the command name ends at this flow token without a space after it
+					pt.Unsafe = isCmdUnsafe(pt.FuncName) || pt.Unsafe
+					readFunc = false
+				}
 				pt.LastFlowToken = i
 				pt.ExpectFunc = true
 				pt.SquareBracket = false
@@ -552,6 +587,11 @@ func Parse(block []rune, pos int) (pt ParsedTokens, syntaxHighlighted string) {
 			case i > 0 && block[i-1] == ' ':
 				if pos != 0 && pt.Loc >= pos {
 					return
+				}
+				if readFunc {
+					// the command name ends at this flow token without a space after it
+					pt.Unsafe = isCmdUnsafe(pt.FuncName) || pt.Unsafe
+					readFunc = false
 				}
 				pt.LastFlowToken = i
 				pt.ExpectFunc = true
